@@ -64,6 +64,21 @@ class TransactionError(Exception):
 #     return varstr(locktime_csv.to_bytes(4, 'little')) + lockbytes + script
 
 
+def _bytes_or_hex(data):
+    """
+    Scripts, hashes, keys and transaction ids provided as bytes are used as they are, only strings are read as
+    hexadecimal. Binary data which happens to consist of ASCII hexadecimal characters is not converted.
+
+    :param data: Binary data as bytes, or as hexadecimal string
+    :type data: bytes, str, None
+
+    :return bytes:
+    """
+    if data is None:
+        return b''
+    return data if isinstance(data, bytes) else to_bytes(data)
+
+
 def get_unlocking_script_type(locking_script_type, witness_type='legacy', multisig=False):
     """
     Specify locking script type and get corresponding script type for unlocking script
@@ -203,7 +218,7 @@ class Input(object):
         :type network: str, Network
         """
 
-        self.prev_txid = to_bytes(prev_txid)
+        self.prev_txid = _bytes_or_hex(prev_txid)
         self.output_n = output_n
         if isinstance(output_n, int):
             self.output_n_int = output_n
@@ -211,8 +226,8 @@ class Input(object):
         else:
             self.output_n_int = int.from_bytes(output_n, 'big')
             self.output_n = output_n
-        self.unlocking_script = b'' if unlocking_script is None else to_bytes(unlocking_script)
-        self.locking_script = b'' if locking_script is None else to_bytes(locking_script)
+        self.unlocking_script = _bytes_or_hex(unlocking_script)
+        self.locking_script = _bytes_or_hex(locking_script)
         self.script = None
         self.hash_type = SIGHASH_ALL
         if isinstance(sequence, numbers.Number):
@@ -663,8 +678,8 @@ class Output(object):
             if not self.value.is_integer():
                 raise TransactionError("Output value must be an integer amount of the smallest denominator")
             self.value = int(self.value)
-        self.lock_script = b'' if lock_script is None else to_bytes(lock_script)
-        self.public_hash = to_bytes(public_hash)
+        self.lock_script = _bytes_or_hex(lock_script)
+        self.public_hash = _bytes_or_hex(public_hash)
         if isinstance(address, Address):
             self._address = address.address
             self._address_obj = address
@@ -679,7 +694,7 @@ class Output(object):
         else:
             self._address = address
             self._address_obj = None
-        self.public_key = to_bytes(public_key)
+        self.public_key = _bytes_or_hex(public_key)
         self.compressed = True
         self.versionbyte = self.network.prefix_address
         self.script_type = script_type
@@ -1966,7 +1981,7 @@ class Transaction(object):
         :return int: Transaction output number (output_n)
         """
 
-        lock_script = to_bytes(lock_script)
+        lock_script = _bytes_or_hex(lock_script)
         if output_n is None:
             output_n = len(self.outputs)
         if not float(value).is_integer():
